@@ -62,7 +62,12 @@ impl<'a> IrEmitter<'a> {
     ) -> Result<TokenStream, EmitError> {
         match func {
             BuiltinFn::Print => {
-                if let Some(arg) = args.first() {
+                if args.len() > 1 {
+                    // print(a, b, ...): every argument, separated by single spaces (Python's default `sep`)
+                    let fmt = vec!["{}"; args.len()].join(" ");
+                    let items: Vec<TokenStream> = args.iter().map(|a| self.emit_expr(a)).collect::<Result<_, _>>()?;
+                    Ok(quote! { println!(#fmt, #(#items),*) })
+                } else if let Some(arg) = args.first() {
                     let a = self.emit_expr(arg)?;
                     Ok(quote! { println!("{}", #a) })
                 } else {
@@ -314,7 +319,11 @@ impl<'a> IrEmitter<'a> {
 
         match id {
             BuiltinFnId::Print => {
-                if let Some(arg) = args.first() {
+                if args.len() > 1 {
+                    let fmt = vec!["{}"; args.len()].join(" ");
+                    let items: Vec<TokenStream> = args.iter().map(|a| self.emit_expr(a)).collect::<Result<_, _>>()?;
+                    Ok(Some(quote! { println!(#fmt, #(#items),*) }))
+                } else if let Some(arg) = args.first() {
                     let a = self.emit_expr(arg)?;
                     Ok(Some(quote! { println!("{}", #a) }))
                 } else {
